@@ -257,6 +257,9 @@ func runC03(r *drv.Run) drv.Spec {
 			base += " dtotal=100000" + wbFor(it.Kind)
 		}
 		sjobs = append(sjobs, &wd.Job{Text: base + "\n", Tag: it})
+		if !isImage(it.Kind) && !isToken(it.Kind) {
+			sjobs = append(sjobs, fineBothAxesJobs(r, it, len(sjobs))...)
+		}
 	}
 	for _, rs := range e.run("asan", sjobs, "c03-sweep", 3000) {
 		if rs == nil {
@@ -269,9 +272,46 @@ func runC03(r *drv.Run) drv.Spec {
 			continue
 		}
 		o := rs.First()
+		if strings.HasPrefix(rs.Job.Text, "job=decode") {
+			e.eval(1)
+			e.count("fine_both_axes_decodes", 1)
+			e.count("fine_both_axes_suspensions", wd.Num(o, "short_reads")+wd.Num(o, "short_writes"))
+			e.class(fmt.Sprintf("%s|fine-both|%s", it.Kind, wd.Str(o, "status")))
+			continue
+		}
 		e.eval(wd.Num(o, "runs"))
 		e.count("exact_window_sweep_runs", wd.Num(o, "runs"))
 		e.class(fmt.Sprintf("%s|sweep-exact|%s", it.Kind, wd.Str(o, "status")))
 	}
 	return sp
+}
+
+// fineBothAxesJobs: both streams in small pieces at once (a suspension for
+// want of input while the destination is nearly full, and the other way
+// round): four seeded plans for one input, pieces of 1..40 bytes, exact-size
+// source windows.
+func fineBothAxesJobs(r *drv.Run, it *corpus.Item, salt int) []*wd.Job {
+	var out []*wd.Job
+	for k := 0; k < 4; k++ {
+		fr := vk.CaseRNG(r.Seed, k, "c03fine", int64(salt))
+		fine := func(total int) string {
+			var ps []string
+			for left := total + 8; left > 0; {
+				p := 1 + fr.Intn(40)
+				ps = append(ps, fmt.Sprint(p))
+				left -= p
+			}
+			return strings.Join(ps, ",")
+		}
+		dt := 4096
+		if it.Payload != nil {
+			dt = len(it.Payload) + 64
+		}
+		line := fmt.Sprintf("job=decode kind=%s in=%s cpu=60 salloc=exact splits=%s dcaps=%s dtotal=%d%s", it.Kind, it.Path, fine(len(it.Enc)), fine(dt), dt, wbFor(it.Kind))
+		if k%2 == 1 {
+			line += " close=late"
+		}
+		out = append(out, &wd.Job{Text: line + "\n", Tag: it})
+	}
+	return out
 }
